@@ -4,12 +4,16 @@ package shimagent
 //vsym:include shim/world.go
 //vsym:entry H07_shim
 //vsym:entry H07_upstream3
+//vsym:entry H07_time_passes
 //vsym:replay same-harness repeat=6
-//vsym:expect-cover C07.listed-valid C07.purged-expired-upstream C07.purged-expired-memory C07.orphan-dropped C07.empty-list-keeps C07.upstream-fault
+//vsym:expect-cover C07.listed-valid C07.purged-expired-upstream C07.purged-expired-memory C07.orphan-dropped C07.empty-list-keeps C07.upstream-fault C07.time-passes
+//vsym:bound H07_time_passes: one hardware certificate (KeyID decodes or not, with or without a trailing newline) registered through AddHardCert at an arbitrary instant inside its arbitrary window, optionally listed, then List / Signers / Sign at an arbitrary later instant past the end of the window; both modes
 //vsym:bound H07_upstream3: no in-memory certificate, exactly three upstream identities (two certificates and a third certificate or plain key), symbolic windows and clock, both modes, List / Signers / Sign
 //vsym:bound H07_shim: pre-state under the representation invariant with 0..1 (thorough 0..2) in-memory certificates and 0..2 upstream identities (plain key of 2 possible keys, a certificate over either key, or the in-memory certificate itself also held upstream); every validity window and the clock symbolic; both modes; every map iteration order; the first (thorough: one of the first two) upstream call may fail; one operation from List / Signers / Sign
 
 import (
+	"time"
+
 	"golang.org/x/crypto/ssh"
 	"golang.org/x/crypto/ssh/agent"
 )
@@ -37,6 +41,82 @@ func H07_shim() {
 // removals in one pass.
 func H07_upstream3() {
 	h07Scenario(0, 3, 3)
+}
+
+// H07_time_passes: a hardware certificate registered through AddHardCert while
+// valid, whose KeyID text carries a trailing newline or not; the clock then
+// moves to or past the end of its window: every listing still succeeds, no
+// longer shows it, signing with it fails and it is gone from memory.
+func H07_time_passes() {
+	mwPadKeyID = vChoose(2, "keyid-trailing-newline") == 1
+	va, vb := vNondetU64("valid-after"), vNondetU64("valid-before")
+	mwClock = vNondetI64("now")
+	vAssume(vAnd(mwClock >= 0, mwClock < 1<<61))
+	vAssume(vAnd(va <= uint64(mwClock), uint64(mwClock) < vb))
+	vAssume(vb < 1<<61)
+	if vIsNative() {
+		// the real clock: a window that ends one second from now
+		nwScale, mwClock, va, vb = 1, 100, 90, 101
+	}
+	up := &mwUpstream{failAt: -1}
+	s := mwNewServer(up, vChoose(2, "no-upstream-mode") == 1)
+	mwUpKey(up, 1, "k")
+	c := mwNewCert(1, va, vb, vChoose(2, "decodes") == 1)
+	err := s.AddHardCert(c, "hw")
+	vAssert(err == nil, "C07.valid-hardware-certificate-accepted")
+	vAssert(mwInv(s), "C07.table-invariant-preserved")
+	if err != nil {
+		return
+	}
+	if vChoose(2, "listed-while-valid") == 1 {
+		l, e := s.List()
+		found := false
+		for _, k := range l {
+			if string(k.Blob) == string(mwCertMarshal(c)) {
+				found = true
+			}
+		}
+		vAssert(e == nil && found, "C07.valid-hardware-certificate-listed")
+		vAssert(mwInv(s), "C07.table-invariant-preserved")
+	}
+	later := vNondetI64("later")
+	vAssume(vAnd(later > int64(vb), later < 1<<62)) // the instant ValidBefore itself is accepted by the repository (statement silent)
+	mwClock = later
+	if vIsNative() {
+		time.Sleep(2200 * time.Millisecond)
+	}
+	op := vChoose(3, "operation")
+	var oerr error
+	var listed []*agent.Key
+	var signers []ssh.Signer
+	crashed := vCatch(func() {
+		switch op {
+		case 0:
+			listed, oerr = s.List()
+		case 1:
+			signers, oerr = s.Signers()
+		case 2:
+			_, oerr = s.Sign(c, []byte("data"))
+		}
+	})
+	vAssert(!crashed, "C07.no-crash")
+	if crashed {
+		return
+	}
+	vAssert(mwInv(s), "C07.table-invariant-preserved")
+	if op == 2 {
+		vAssert(oerr != nil, "C07.sign-with-purged-certificate-fails")
+	} else {
+		vAssert(oerr == nil, "C07.listing-succeeds-after-expiry")
+	}
+	for _, k := range listed {
+		vAssert(string(k.Blob) != string(mwCertMarshal(c)), "C07.no-listed-certificate-outside-its-window")
+	}
+	for _, sg := range signers {
+		vAssert(string(sg.PublicKey().Marshal()) != string(mwCertMarshal(c)), "C07.no-listed-certificate-outside-its-window")
+	}
+	vAssert(len(s.certs) == 0, "C07.expired-in-memory-certificate-removed")
+	vReach("C07.time-passes")
 }
 
 func h07Scenario(maxMem, maxUp, exactUp int) {
